@@ -371,6 +371,11 @@ def run(repo: Repo, rep: Report) -> None:
             rep.undecide("ENC-S", str(ex))
         except (Raised, IndexOutOfRange) as ex:
             rep.finding("ENC-S", GRAPH, "active_edges_connected_crossable", "raises", f"raises {ex}")
+    # "one strand" = connectivity of the split graph's active nodes: SPLIT hands that sub-call over, so the sub-call's own encoding
+    # (active_vertices_connected on explicit graphs, node flags that are variables, constants - a pre-drawn segment is the constant
+    # True - and compound expressions) is decided here as well, by C04's schema rule
+    from .c04 import check_encoding as connectivity_encoding
+    connectivity_encoding(repo, rep)
     c20.check_gating(repo, rep)
     rep.assume("the split-graph schema (every segment node joined to the 'single' node and to the pass-through node of its own direction at both "
                "ends; active nodes connected) is exact for 'one strand': DESIGN.md C10; a consistent swap of the two pass-through halves would "
